@@ -21,11 +21,16 @@ fn main() {
             String::new()
         } else {
             match toks[0] {
+                "BASE" => {
+                    util::register_base(toks[1], toks[2]);
+                    String::new()
+                }
                 "PW" => page::run_pw(&toks[1..]),
                 "PR" => page::run_pr(&toks[1..]),
                 "CRCPAGE" => page::run_crc(&toks[1..]),
                 "FW" => file::run_fw(&toks[1..]),
                 "RD" => file::run_rd(&toks[1..]),
+                "SESS" => file::run_sess(&toks[1..]),
                 "OPEN" => file::run_open(&toks[1..]),
                 "BLOBRD" => file::run_blobrd(&toks[1..]),
                 "VCRC" => file::run_vcrc(&toks[1..]),
